@@ -71,11 +71,14 @@ def run_one(m: Mutant, src_root: str = "/repo") -> dict:
                 return {"name": m.name, "status": "broken-mutant", "detail": str(e)}
         mod = importlib.import_module(f"sa.props.{m.prop.lower()}")
         ctx = Ctx(m.prop, tmp, "quick")
+        known = {(k["property"], k["rule"], k["function"], k["instance"]) for k in load_known() if k["property"] == m.prop}
         try:
             mod.run(ctx)
         except AnalysisError as e:
-            return {"name": m.name, "status": "analysis-error", "detail": str(e), "expect": m.expect}
-        known = {(k["property"], k["rule"], k["function"], k["instance"]) for k in load_known() if k["property"] == m.prop}
+            # like sa.check: violations decided before the analysis gave up are still reported (exit 1)
+            early = [o for o in ctx.obligations if not o.ok and o.key(m.prop) not in known]
+            if not early or m.expect != "violation":
+                return {"name": m.name, "status": "analysis-error", "detail": str(e), "expect": m.expect}
         viol = [o for o in ctx.obligations if not o.ok and o.key(m.prop) not in known]
         if m.expect == "violation":
             hit = [o for o in viol if (m.hits in o.rule or m.hits in o.instance or m.hits in o.detail)] if m.hits else viol
